@@ -66,8 +66,8 @@ def g_offsets(k0: int, s0: int, s1: int, s2: int, j0: int, j1: int, j2: int, r0:
     nreg, pattern = S['nreg'], S['pattern']
     k = len(pattern)
     regs = []
-    for x in [r0, r1, r2][:k]:
-        regs.append(rt.P(x, 0, nreg - 1))
+    for i, x in enumerate([r0, r1, r2][:k]):
+        regs.append(S['regs'][i] if S.get('regs') else rt.P(x, 0, nreg - 1))
     sizes: list[Any] = []
     for r, s in enumerate([s0, s1, s2][:nreg]):
         whole = any(pattern[i] == 'W' and regs[i] == r for i in range(k))
